@@ -86,7 +86,12 @@ class Spec:
     reports: list[str] = field(default_factory=list)       # raw report definitions
     extra_header: str = ""
     tz: str = "UTC"
+    effort_unit: int = 1  # symbolic efforts are given in this many seconds (3600 = whole hours)
     time_unit: int = 1   # symbolic pinned offsets (start/end parameters) are given in this many seconds (60 = minutes)
+
+    def eval_effort(self, x: Val, vals: dict) -> Any:
+        """an effort in seconds"""
+        return vals[x.name] * self.effort_unit if isinstance(x, P) else x
 
     def tval(self, x: Val, vals: dict) -> Any:
         """a pinned offset in seconds"""
@@ -193,9 +198,9 @@ def render(spec: Spec, vals: Optional[dict] = None, defaults: Optional[dict] = N
             if t.milestone:
                 out.append(f"{ind}  milestone")
             if t.effort is not None:
-                out.append(f"{ind}  effort {fmt_effort(val(t.effort, v))}")
+                out.append(f"{ind}  effort {fmt_effort(spec.eval_effort(t.effort, v))}")
             for sid, e in t.scen_effort.items():
-                out.append(f"{ind}  {sid}:effort {fmt_effort(val(e, v))}")
+                out.append(f"{ind}  {sid}:effort {fmt_effort(spec.eval_effort(e, v))}")
             if t.duration:
                 out.append(f"{ind}  duration {t.duration}")
             if t.alloc:
@@ -243,7 +248,7 @@ def inject(spec: Spec, project: Any, vals: dict, sc_names: Optional[list[str]] =
     for t in spec.tasks:
         task = project.tasks[spec.full_id(t)]
         if isinstance(t.effort, P):
-            task[("effort", 0)] = vals[t.effort.name] / 3600.0
+            task[("effort", 0)] = spec.eval_effort(t.effort, vals) / 3600.0
         if isinstance(t.prio, P):
             task[("priority", 0)] = vals[t.prio.name]
         if isinstance(t.start, P):
@@ -252,7 +257,7 @@ def inject(spec: Spec, project: Any, vals: dict, sc_names: Optional[list[str]] =
             task[("end", 0)] = IntTime(vals[t.end.name] * spec.time_unit)
         for sid, e in t.scen_effort.items():
             if isinstance(e, P) and sc_names:
-                task[("effort", sc_names.index(sid))] = vals[e.name] / 3600.0
+                task[("effort", sc_names.index(sid))] = spec.eval_effort(e, vals) / 3600.0
         for sid, s in t.scen_start.items():
             if isinstance(s, P) and sc_names:
                 task[("start", sc_names.index(sid))] = IntTime(vals[s.name] * spec.time_unit)
